@@ -2,11 +2,13 @@ package h
 
 import (
 	"bytes"
+	"strings"
 	"context"
 	"fmt"
 	"time"
 
 	"github.com/IrineSistiana/mosdns/v5/pkg/upstream"
+	"github.com/miekg/dns"
 	"verif/sim/simnet"
 	"verif/sim/simrt"
 )
@@ -189,6 +191,35 @@ func c17Twin(rc *RunCtx, c *c17cfg, w *W1) {
 	simrt.Probe("c17.twin_ok")
 }
 
+// c17PadTo appends one TXT record to the packed reply b so that it is exactly
+// target bytes long (the record goes to the additional section).
+func c17PadTo(b []byte, target int) ([]byte, bool) {
+	m := new(dns.Msg)
+	if m.Unpack(b) != nil {
+		return nil, false
+	}
+	for fill := target - len(b); fill > 0; fill-- {
+		var txt []string
+		for rest := fill; rest > 0; rest -= 255 {
+			n := rest
+			if n > 255 {
+				n = 255
+			}
+			txt = append(txt, strings.Repeat("p", n))
+		}
+		m2 := m.Copy()
+		m2.Extra = append(m2.Extra, &dns.TXT{Hdr: dns.RR_Header{Name: "pad.", Rrtype: dns.TypeTXT, Class: dns.ClassINET}, Txt: txt})
+		out, err := m2.Pack()
+		if err == nil && len(out) == target {
+			return out, true
+		}
+		if err == nil && len(out) < target {
+			break
+		}
+	}
+	return nil, false
+}
+
 func c17Main(rc *RunCtx) {
 	c := rc.priv.(*c17cfg)
 	w := newW1(rc)
@@ -228,6 +259,15 @@ func c17Main(rc *RunCtx) {
 			tc := simrt.Choose(100) < c.pTC
 			pad := []int{0, 0, 3, 30}[simrt.Choose(4)]
 			b, info := w.MakeReply(q, ReplyInfo{Call: call.Idx, Conn: sc.ID, WireID: wid, Kind: "udp"}, false, pad)
+			if !tc && simrt.Choose(8) == 0 {
+				// a complete reply that exactly fills (or almost fills) a 4 KiB-ish
+				// receive buffer: size alone says nothing about truncation
+				target := []int{4094, 4095, 1232, 512}[simrt.Choose(4)] // 4095 is the client's receive buffer: a longer datagram would be cut by the socket
+				if bb, ok := c17PadTo(b, target); ok {
+					b = bb
+					simrt.Fault("udp_reply_of_boundary_size")
+				}
+			}
 			// random header flags, TC as chosen
 			b[2] = byte(simrt.Choose(256))
 			b[3] = byte(simrt.Choose(256))
@@ -353,6 +393,13 @@ func c17Main(rc *RunCtx) {
 				ctx, cancel := context.WithTimeout(context.Background(), dl)
 				call.Ctx = ctx
 				call.Deadline = simrt.S.Elapsed() + dl
+				if !c.slow && simrt.Choose(4) == 0 {
+					// a caller without any deadline (cancelled only when it is done)
+					cancel()
+					ctx, cancel = context.WithCancel(context.Background())
+					call.Ctx = ctx
+					call.Deadline = 1 << 60
+				}
 				w.Exchange(u, call)
 				cancel()
 				c17Check(rc, c, call)
@@ -431,7 +478,7 @@ func c17Check(rc *RunCtx, c *c17cfg, x *Call) {
 		return
 	}
 	if len(x.Resp) != len(sent) || !bytes.Equal(x.Resp[2:], sent[2:]) {
-		rc.Fail("udp_reply_altered", "call %d: returned reply differs from the UDP reply: % x vs % x", x.Idx, x.Resp, sent)
+		rc.Fail("udp_reply_altered", "call %d: returned reply (%d bytes) differs from the UDP reply (%d bytes): % x vs % x", x.Idx, len(x.Resp), len(sent), x.Resp[:min(len(x.Resp), 64)], sent[:min(len(sent), 64)])
 		return
 	}
 	if id := uint16(x.Resp[0])<<8 | uint16(x.Resp[1]); id != x.OrigID {
